@@ -76,38 +76,76 @@ LEVEL_TEXT = ("Machine-checked Coq theorems (coq/props/C16.v), for all inputs.  
               "C19 w_rbig_dec_total, w_relaxed_dec_total, w_fbig_dec_total (binary deserialisers: canonical value or error on every byte "
               "string); C20 naive_gcd_loop_fuel (macro gcd loop); C13 window_loop_ok (sliding-window exponentiation loop returns within "
               "bit index + 1 iterations), egcd_loop_ok (ring inverse loop).  "
+              "(4) Round 3, proved here.  Text parsers never panic: Cross/Utf8.v models Rust's &str slicing (str_range: a panic value unless "
+              "both byte indices are in range and char boundaries) and the structure of UTF-8; the index-level as-is models of "
+              "Repr::from_str_native (float/src/parse.rs: rfind of the scale marker, find of the point, the seven &name[a..b] sites incl. "
+              "int_str[2..] behind the 0x prefix) and of the two rational parsers (rational/src/parse.rs, four sites) take EVERY slice legally "
+              "on EVERY well-formed UTF-8 byte string, for every base: parse_idx = the C08 model parse_asis (parse_idx_eq), hence Ok exactly "
+              "on the documented grammar (C08 parse_iff) and Ok-or-Err everywhere; ratio parsers Ok-or-Err with a positive denominator; "
+              "the integer parser specification (= as-is for every word size, C07) is Ok-or-Err on every byte string; the scale-marker "
+              "table and the list of slice expressions are regenerated from the sources on every run (coq/gen/ParseSites.v) with the proof "
+              "obligations 'all markers ASCII', 'markers = grammar table', 'slice sites = the modelled ones'.  Series loops with rounding "
+              "(Cross/SeriesRounded.v): iacoth / ln / exp loops with an arbitrary rounding after every multiplication and division (magnitude "
+              "enlarged by at most 1 + u) leave within N steps once |pow0| (1+u) q^N < eps, q = |multiplier| (1+u); for q <= 1/2 the fuel "
+              "fuel_prec B m = 1 + m log2_up(B) - linear in the precision - suffices for a threshold >= B^-m; the argument reductions "
+              "((x-1)/(x+1) on [1,2), x/(x+2) for |x| <= 1/2, (x mod L)/B^n with 2L <= B) deliver |z| <= 1/3, 0 <= r <= 1/2; the "
+              "arguments of iacoth in log.rs (regenerated) are >= 4, enough at every precision >= 2.  Lehmer gcd (Cross/LehmerTermination.v "
+              "over C12's as-is model): the guess loop never exhausts its fuel w + 1, its cofactors stay within COEFF_LIMIT, the outer "
+              "loop strictly decreases x + y (Euclidean or Lehmer step) and gcd_large never runs out of fuel, for every word size >= 2, "
+              "without assuming the guess right.  C07 digits_asis_correct (D&C printer) pinned.  Allocation (Cross/AllocBounds.v): "
+              "bits(a 2^n) = bits a + n, n (bits a - 1) + 1 <= bits(a^n) <= n bits a + 1, bits(s B^e) <= bits s + e bits B + 1, mul linear, "
+              "and no constant bounds the result size of shl by the input size (classification of shl / set_bit / ones / pow / to_int / ln "
+              "scaling as value-sized results, guarded only by the allocator's documented failure).  "
               "The whole public surface is tied to the table by a watchdog-supervised correspondence run judged by the OCaml extraction of "
               "the table: every ownership form (vv vr rv rr, assigning by value / by reference) x word-count class of every operation with a "
               "documented panic, and every parser configuration x every character position of well-formed literals with a multi-byte "
-              "character inserted, are swept on every run.")
+              "character inserted, are swept on every run; the parsers' outcome (ok / ParseError kind) is predicted exactly by the "
+              "extracted index-level models (asis=same on every parser case); buffer growth at the capacity edge (set_bit / clear_bit / "
+              "shl / add / mul by a word at word index len-1 .. capacity+2 of values built fresh / shrunk / cloned into a larger buffer / "
+              "grown, capacity read through the repr_layout hook) and the integer / fractional part of floats with exponents around "
+              "+-10^6, +-10^8, +-3*10^9, +-2^62 in every base are swept on every run.")
 LEVEL_NOTE = ("Only compared (not proved): the outcome class ok / err / panic class / hang / crash of every operation that has no as-is model "
-              "here (the table is the judge; the dictionary operation name -> call family in oracle/driver_c16.ml is trusted); the float and "
-              "rational parsers and the human-readable deserialisers (no model: run only, incl. the injected multi-byte sweep); the series "
-              "loops with the real rounding of each operation and the real sub_ulp (the theorems abstract every operation as exact and the "
-              "threshold as any function bounded below; that the argument reduction delivers |r| <= 1/2 is a hypothesis); that the word-level "
+              "here (the table is the judge; the dictionary operation name -> call family in oracle/driver_c16.ml is trusted); the "
+              "human-readable (serde text) deserialisers (no model: run only, incl. the injected multi-byte sweep); that Rust's "
+              "find / rfind / strip_prefix / str::parse::<isize> behave as modelled (byte search for ASCII patterns, no panic); the series "
+              "loops with the real digit-level rounding and the real sub_ulp (the theorems take any rounding with relative magnitude growth "
+              "<= u and any threshold bounded below by B^-m; that the sum's exponent is bounded below, i.e. the value of m, and that "
+              "1 <= x_scaled < 2 / 2 ln B <= B for the rounded constants are hypotheses); the extended Lehmer loop (gcd_ext_in_place) "
+              "and the word-level carries of lehmer_step; that the word-level "
               "scratch buffers suffice for multiplication (see ScratchMemory when present) ; wall clock and allocator behaviour are observed.  "
               "The near-overflow band of isize exponents is accepted either way (ok or overflow panic) and counted.  Trusted: Coq kernel, "
               "extraction, the driver dictionary, the harness, the runner's watchdog.")
-TECHNIQUE = "Coq proof of panic-set tables and fuel sufficiency + watchdog-supervised correspondence run over the public surface"
+TECHNIQUE = "Coq proof of panic-set tables, of fuel sufficiency (series loops with rounding, Lehmer, Newton, D&C recursions) and of slice-index legality of the text parsers on all UTF-8 + regenerated parser tables + watchdog-supervised correspondence run over the public surface"
 RULE = ("cases = two systematic sweeps on every run - (a) every ownership form vv vr rv rr av ar x word-count class (1/1, 1/2, 2/2 words, "
         "equal length differing in the low / the top word, equal, either operand longer, large against 1 or 2 words) of every violated "
         "documented precondition of the binary operators and methods of UBig, IBig, mixed UBig/IBig, FBig, RBig, Relaxed; (b) every parser "
         "configuration (14 integer / rational entry points x radix, FBig and Repr in 6 bases) x every character position of well-formed "
-        "literals with a 2-, 3- or 4-byte character inserted - plus random cases = public operation (every call form the harness knows: by "
+        "literals with a 2-, 3- or 4-byte character inserted (and the literals themselves); (c) buffer growth at the capacity edge: set_bit / "
+        "clear_bit / shl / IBig shl / add / mul-by-word x {fresh, shrunk, cloned into a larger buffer, grown} x word index len-1 .. "
+        "capacity+2 (capacity read through the repr_layout hook) on 3-, 4- and 9-word values; (d) trunc / fract / ceil / floor / round / "
+        "split_at_point / to_int conversions of floats with exponents -10^6, -10^8, -3*10^9, 3*10^9 in bases 3 and 10 (expected at once) "
+        "- plus random cases = public operation (every call form the harness knows: by "
         "value / by reference / assigning / primitive operand of each width) x edge arguments {0, 1, -1, 2^63, 2^64-1, 2^64, word-count classes of the shared generator, primitive MIN/MAX, "
         "infinities, precision 0/1/2/small, exponents 0, +-1, +-small, +-2^62, isize::MIN/MAX, radix 0/1/2/36/37, shift counts up to "
         "2^24 and usize::MAX where the result is small, empty / non-ASCII / overlong strings, random byte streams for the "
         "deserialisers}.  A case is non-trivial when the oracle evaluated the extracted table on it and the operation is not in the "
         "never-panics family, or the implementation panicked / refused; distinct = distinct case texts.")
-EXPLANATION = ("Theorems (coq/props/C16.v): the documented panic table is characterised per reason; the as-is models of the panic "
+EXPLANATION = ("Theorems (coq/props/C16.v, 95): the documented panic table is characterised per reason; the as-is models of the panic "
                "mechanisms equal the table outside the open finding classes and are refuted inside them by witnesses; loops modelled "
-               "with fuel never run out under the stated bounds.  Tie: every public operation is run in supervised workers and its "
-               "outcome class ok / err / panic(class) / hang / crash is compared with the extracted table.")
+               "with fuel never run out under the stated bounds (series loops with rounding: fuel linear in the precision; Lehmer gcd: "
+               "x + y decreases; Newton, ilog, remove, D&C division and radix conversion, window exponentiation: imported); every "
+               "&str slice of the float and rational parsers is at a char boundary on every well-formed UTF-8 text (index-level models "
+               "equal the C08 / C07 models), so the parsers return Ok or Err, never panic.  Ties: the scale-marker table, the slice "
+               "sites and the iacoth arguments are regenerated from the Rust sources on every run and the theorems are re-proved over "
+               "them; every public operation is run in supervised workers and its outcome class ok / err / panic(class) / hang / "
+               "crash is compared with the extracted table, the parsers' exact outcome with the extracted index-level models.")
 TRUSTED_BASE = [
     "Coq 8.16.1 kernel (coqc, full .vo builds)",
     "extraction: ExtrOcamlBasic + ExtrOcamlZBigInt + coq/extract/FastZ.v",
     "OCaml 4.13.1 + zarith, oracle/common.ml, oracle/driver_c16.ml (dictionary: harness operation name -> call family of PanicSpec.v)",
-    "Rust harness harness/src/bin/c16.rs (panic capture, message -> class table, capping allocator), tools/core.py run_lines watchdog",
+    "Rust harness harness/src/bin/c16.rs (panic capture, message -> class table, capping allocator, u.growth: capacity read through the cfg(dashu_verif) hook repr_layout_ubig), tools/core.py run_lines watchdog",
+    "tools/translate_c16_r3.py (regular-expression reader of the scale_pos match of float/src/parse.rs, of the index-slice expressions of the three parse files and of the iacoth call arguments of float/src/log.rs -> coq/gen/ParseSites.v at plug-in import; 'unparsed' keeps the last good copy, marked STALE)",
+    "the model of Rust's str API in Cross/Utf8.v: is_char_boundary, slicing panics exactly when an index is out of range or not a boundary, find / rfind of an ASCII pattern = byte search",
 ]
 ASSUMPTIONS = [
     "values are moved through raw words (UBig::from_words, IBig::from_parts, Repr::new, RBig::from_parts), never through a parser",
@@ -728,7 +766,7 @@ FOREIGN = ["\u00e9", "\u00d7", "\u0663", "\u4e00", "\uff11", "\u221e", "\u2212",
 FOREIGN_ASCII = ["\u0000", " ", "\u007f", "x", "X", "_", ".", "-", "+", "/", "e", "p", "@", "#"]
 
 
-QUICK_TEMPLATES = ["0", "-0.5", "0x1.8p3", "1_0e-2", "1/0x2", "+0b1@1"]     # every structural position once: after the sign, the leading
+QUICK_TEMPLATES = ["0", "-0.5", "0x1.8p3", "1_0e-2", "1/0x2", "+0b1@1", "0x.8", "-0x_p1"]     # every structural position once: after the sign, the leading
 #                      zero, the radix prefix, a digit, the point, the scale marker, its sign, the underscore, the slash; start and end
 
 
@@ -757,11 +795,13 @@ def parse_sweep(rng, tier):
     if tier == "quick":
         for ti, t in enumerate(QUICK_TEMPLATES):
             for ci, cfg in enumerate(parser_configs(radixes=((2, 10, 16, 36)[(ti + rot) % 4],))):
+                out.append("%s %s" % (cfg, sx(t)))                     # the well-formed literal itself
                 for pos in range(len(t) + 1):
                     out.append("%s %s" % (cfg, sx(inject(t, pos, wide[(pos + ti + ci + rot) % 3], False))))
         return out
     for cfg in parser_configs():
         for t in TEMPLATES + QUICK_TEMPLATES:
+            out.append("%s %s" % (cfg, sx(t)))
             for pos in range(len(t) + 1):
                 for ch in wide:
                     out.append("%s %s" % (cfg, sx(inject(t, pos, ch, False))))
@@ -796,6 +836,70 @@ def gen_parse_struct(rng, out):
         t = rng.choice(["0x", "0X", "-0x", "+0x", "0x.", "0x_"]) + t
     out.append("%s %s" % (rng.choice(parser_configs()), sx(t)))
 
+
+GROWTH_KINDS = ["set_bit", "set_bit", "clear_bit", "shl", "ishl", "add", "mulw"]
+GROWTH_HOW = ["fresh", "shrunk", "cloned", "grown"]
+
+
+def growth_sweep(rng):
+    """buffer growth at the capacity edge (always part of a run): every operation that pushes words x every way the value was
+    built x every word index len-1 .. cap+2 (the harness reads len / cap of the built value through the repr_layout hook)"""
+    out = []
+    for kind in ["set_bit", "clear_bit", "shl", "ishl", "add", "mulw"]:
+        for how in GROWTH_HOW:
+            for nw in (3, 4, 9):
+                for pos in range(10):
+                    if kind == "mulw" and pos > 0:
+                        continue
+                    out.append("u.growth %s %s %x %s %x" % (kind, how, pos, hx(gen_mag(rng, nw)), rng.choice([0, 1, 63, rng.below(64)])))
+    return out
+
+
+def gen_growth(rng, out):
+    nw = rng.choice([1, 2, 3, 3, 4, 5, 8, 9, 16, 17, 33, 70])
+    v = gen_mag(rng, nw)
+    if rng.chance(1, 4):
+        v = (1 << (64 * nw)) - 1
+    out.append("u.growth %s %s %x %s %x" % (rng.choice(GROWTH_KINDS), rng.choice(GROWTH_HOW), rng.below(10), hx(v), rng.below(64)))
+
+
+TINY_EXP = [-(10 ** 6), -(10 ** 8), -3 * 10 ** 9, -(1 << 40), -(1 << 62), -I64MAX + 70, 10 ** 6, 10 ** 8, 3 * 10 ** 9, 1 << 40, 1 << 62, I64MAX - 70,
+            -1000, -64, -17, -5, -1, 0, 5]
+SPLIT_OPS = ["trunc", "fract", "ceil", "floor", "round", "split_at_point", "is_int"]       # never need B^|exponent|
+TOINT_NEG_OPS = ["repr_to_int", "try_ibig", "try_ubig"]                                     # fast for tiny values, huge results for large ones
+
+
+def gen_float_tiny(rng, out):
+    """the integer / fractional part of floats with a huge exponent of either sign (a tiny or an astronomically large value): the
+    result is the value itself, zero or one - expected at once, in every base (B^|exponent| must never be formed)"""
+    bt = rng.choice(["3", "a", "3", "a", "2", "10"])
+    base = BASES[bt]
+    prec = rng.choice([1, 2, 5, 17, 53])
+    s = fsig(rng, base, prec, True)
+    if s == 0:
+        s = 1
+    head = "%s %s %x" % (bt, rng.choice(MODES), prec)
+    r = rng.below(10)
+    if r < 7:
+        out.append("f.%s %s %s %s" % (rng.choice(SPLIT_OPS), head, hx(s), hx(rng.choice(TINY_EXP))))
+    elif r < 9:
+        out.append("f.%s %s %s %s" % (rng.choice(TOINT_NEG_OPS), head, hx(s), hx(rng.choice([e for e in TINY_EXP if e <= 5]))))
+    else:
+        # FBig::to_int: round_fract's debug assertion forms B^|exponent| in checked builds: exponents down to -10^6 only
+        out.append("f.to_int %s %s %s" % (head, hx(s), hx(rng.choice([-(10 ** 6), -(10 ** 5), -1000, -64, -5, -1, 0, 5]))))
+
+
+def tiny_sweep(rng):
+    out = []
+    for bt in ("3", "a"):
+        for op in ("trunc", "fract", "ceil", "floor", "round", "split_at_point"):
+            for e in (-(10 ** 6), -(10 ** 8), -3 * 10 ** 9, 3 * 10 ** 9):
+                s = rng.choice([123, -123, 1, -1, BASES[bt] ** 4 - 1])
+                out.append("f.%s %s %s 5 %s %s" % (op, bt, rng.choice(MODES), hx(s), hx(e)))
+        for op in TOINT_NEG_OPS:
+            out.append("f.%s %s %s 5 %s %s" % (op, bt, rng.choice(MODES), hx(123), hx(-3 * 10 ** 9)))
+    return out
+
 DE_TYPES = ["ubig", "ibig", "fbig", "dbig", "repr", "rbig", "relaxed"]
 JSON_PIECES = ['"', "0", "1", "-1", "1.5", "1e5", "[", "]", "{", "}", ",", ":", "null", "true", '"0x10"', '"12"', '"-12"', '"1/2"', '"1e5"', '"1.5"', '"inf"', '"-inf"',
                '"a"', '""', '"1/0"', '"_"', "[1,2]", "[true,[1]]", '{"significand":"1","exponent":0}', "[[1],0,0]", "18446744073709551616", "-9223372036854775809",
@@ -826,7 +930,7 @@ def gen_parse(rng, tier, out):
 
 def gen_cases(rng, tier, n):
     # the two systematic sweeps come first (their word values and character widths depend on the seed, the classes do not)
-    out = forms_sweep(rng.fork("forms")) + parse_sweep(rng.fork("parse"), tier)
+    out = growth_sweep(rng.fork("growth")) + tiny_sweep(rng.fork("tiny")) + forms_sweep(rng.fork("forms")) + parse_sweep(rng.fork("parse"), tier)
     if len(out) > n // 2:
         out = out[:n // 2]
     hangs = 0
@@ -835,6 +939,10 @@ def gen_cases(rng, tier, n):
         m = len(out)
         if k < 7:
             gen_forms(rng, tier, out)
+        elif k < 10:
+            gen_growth(rng, out)
+        elif k < 13:
+            gen_float_tiny(rng, out)
         elif k < 38:
             gen_integer(rng, tier, out)
         elif k < 44:
